@@ -206,13 +206,14 @@ theorem getD_succ_eq_tail {β : Type} (l : List β) (j : ℕ) (d : β) : l.getD 
   cases l <;> simp
 
 /-- Successful call with `sample_momenta=True`: the call succeeded in attempt `j` (the first attempt not
-    vetoed), the stored `last_kinetic_energy` is the kinetic energy of the momenta drawn in attempt `j`, and
-    the state is the trajectory started from the *old* positions with exactly those momenta. -/
-theorem attemptLoop_fresh (g : HCfg n ℝ) (old : St n ℝ) :
+    vetoed), the stored `last_kinetic_energy` is the reference carried into the call minus the kinetic energy
+    the call started with plus the kinetic energy of the momenta drawn in attempt `j`, and the state is the
+    trajectory started from the *old* positions with exactly those momenta. -/
+theorem attemptLoop_fresh (g : HCfg n ℝ) (old : St n ℝ) (reference start : ℝ) :
     ∀ (k : ℕ) (zs : List (Arr n ℝ)) (checks : List Bool) (c c' : HCtx n ℝ), c.q = old.q →
-      attemptLoop g true old k zs checks c = (true, c') →
+      attemptLoop g true old reference start k zs checks c = (true, c') →
       ∃ j, j < k ∧ checks.getD j true = true ∧ (∀ l, l < j → checks.getD l true = false) ∧
-        c'.lastKE = ekin g.m (g.draw old.q (zs.getD j Arr.zero)) ∧
+        c'.lastKE = (reference - start) + ekin g.m (g.draw old.q (zs.getD j Arr.zero)) ∧
         (⟨c'.q, c'.p⟩ : St n ℝ) = g.run ⟨old.q, g.draw old.q (zs.getD j Arr.zero)⟩ := by
   intro k
   induction k with
@@ -235,19 +236,23 @@ theorem attemptLoop_fresh (g : HCfg n ℝ) (old : St n ℝ) :
       · rw [getD_succ_eq_tail]; exact h3
       · rw [getD_succ_eq_tail]; exact h4
 
-/-- a call in which every attempt is vetoed leaves positions and momenta as they were -/
-theorem attemptLoop_failed (g : HCfg n ℝ) (sample : Bool) (old : St n ℝ) :
+/-- a call in which every attempt is vetoed leaves positions, momenta and the kinetic reference as they were -/
+theorem attemptLoop_failed (g : HCfg n ℝ) (sample : Bool) (old : St n ℝ) (reference start : ℝ) :
     ∀ (k : ℕ) (zs : List (Arr n ℝ)) (checks : List Bool) (c c' : HCtx n ℝ), c.q = old.q → c.p = old.p →
-      attemptLoop g sample old k zs checks c = (false, c') → c'.q = old.q ∧ c'.p = old.p := by
+      c.lastKE = reference →
+      attemptLoop g sample old reference start k zs checks c = (false, c') →
+      c'.q = old.q ∧ c'.p = old.p ∧ c'.lastKE = reference := by
   intro k
   induction k with
-  | zero => intro zs checks c c' hq hp h; simp only [attemptLoop, Prod.mk.injEq, true_and] at h; subst h; exact ⟨hq, hp⟩
+  | zero =>
+    intro zs checks c c' hq hp hk h
+    simp only [attemptLoop, Prod.mk.injEq, true_and] at h; subst h; exact ⟨hq, hp, hk⟩
   | succ k ih =>
-    intro zs checks c c' hq hp h
+    intro zs checks c c' hq hp hk h
     simp only [attemptLoop] at h
     split at h
     · exact absurd (congrArg Prod.fst h) (by simp)
-    · exact ih _ _ _ c' rfl rfl h
+    · exact ih _ _ _ c' rfl rfl rfl h
 
 end Verlet
 
